@@ -80,6 +80,9 @@ def worker(job):
                     d['smt2'] = smt2 if len(smt2) < 400000 else smt2[:400000]
             out['results'].append(d)
         out['paths'] = cx.npaths
+        out['uncovered'] = cx.uncovered_blocks()
+        out['allow_uncovered'] = int(cx.contract.opts.get('uncovered', '0'))
+        out['merges'] = cx.nmerges
         out['returns'] = cx.returns
         out['pre_sat'] = getattr(cx, 'pre_sat', '?')
         out['notes'] = cx.notes
@@ -204,6 +207,11 @@ def main(argv):
     for o in outs:
         if o['error']:
             engine_errors.append('%s: %s' % (o['fn'], o['error']))
+        elif len(o.get('uncovered') or []) > o.get('allow_uncovered', 0):
+            # vacuity guard: code no feasible explored path reaches (contradictory contracts
+            # would discharge everything behind them)
+            engine_errors.append('%s: vacuity: %d blocks not reached by any feasible path (declared: %d): %s' % (
+                o['fn'], len(o['uncovered']), o.get('allow_uncovered', 0), o['uncovered'][:6]))
         elif o.get('returns', 0) == 0 and not any(r['kind'] == 'subset' for r in o['results']) \
                 and not any('vacuity' == r['kind'] for r in o['results']):
             pass
@@ -271,7 +279,8 @@ def main(argv):
     for o in outs:
         funcs_ev.append({'name': o['fn'], 'pos': o.get('pos'), 'ssa_hash': o.get('ssahash'), 'paths': o.get('paths'),
                          'seconds': o.get('seconds'), 'precondition_sat': o.get('pre_sat'),
-                         'inlined': o.get('inlined'), 'error': o.get('error')})
+                         'inlined': o.get('inlined'), 'error': o.get('error'), 'uncovered_blocks': o.get('uncovered'),
+                         'state_merges': o.get('merges')})
         assumed |= set(o.get('assumed') or [])
         opaque |= set(o.get('opaque') or [])
         erased |= set(o.get('erased') or [])
